@@ -609,7 +609,11 @@ func TestHarness(t *testing.T) {
 					}
 				}
 				if holds && rng.Chance(1, 4) {
-					l += " hold=1"
+					if strings.Contains(l, " sync ") && rng.Chance(1, 2) {
+						l += " hold=2" // this call itself is overtaken between its clock read and the lock
+					} else {
+						l += " hold=1"
+					}
 				}
 				if holds && rng.Chance(1, 6) {
 					if pair := g.undoWake(r); pair != nil {
